@@ -194,6 +194,22 @@ def check_structure(acc, domk, si, seed, tier):
             L2 = float(e2._lipschitz(ms2))
             if not abs(L2 - L) <= 1e-8 * max(1.0, L):
                 fails.append(('spelling-lipschitz', 'spelling %s/%s gives smoothness constant %.10g vs %.10g' % (qk, pf, L2, L)))
+    # history: the same engine object sets up a second measurement list (same projections, same shapes, different
+    # queries); the bound must be the one of the list it is asked about (no state carried over between calls)
+    if len(struct) >= 1:
+        from mbi import Domain, FactoredInference
+        engh = FactoredInference(Domain(attrs, sizes), metric='L2', iters=1)
+        for kinds in (['dense'], ['prefix'], ['tall'], ['scaled'], ['dense']):
+            probk = M.Problem(attrs, sizes, struct, si, 'pos', seed, kinds=kinds)
+            msk = engh.fix_measurements(probk.fresh_measurements())
+            engh._setup(msk, T)
+            Lh = float(engh._lipschitz(msk))
+            engf, msf = setup(attrs, sizes, probk.fresh_measurements(), T, 'L2')
+            Lf = float(engf._lipschitz(msf))
+            acc.evals += 1
+            if not abs(Lh - Lf) <= 1e-8 * max(1.0, Lf):
+                fails.append(('lipschitz-history', 'on a reused engine _lipschitz returned %.8g for queries of kind %s, a fresh engine returns %.8g' % (Lh, kinds[0], Lf)))
+                break
     return struct, fails
 
 
